@@ -418,7 +418,6 @@ Proof.
   induction v using MetricsProofs.value_ind'; unfold sflat_P; intros Hok; try reflexivity.
   - rewrite flatten_VDoc, spec_metrics_VDoc. apply sflat_doc_F; [assumption|]. rewrite dates_ok_VDoc in Hok. exact Hok.
   - rewrite flatten_VArr, spec_metrics_VArr. apply sflat_arr_F; [assumption|]. rewrite dates_ok_VArr in Hok. exact Hok.
-  - cbn [dates_ok] in Hok. cbn [flatten map snd spec_metrics]. rewrite epoch_ms_id by exact Hok. reflexivity.
 Qed.
 
 (* the model's extraction yields the specification's metric vector *)
